@@ -379,6 +379,13 @@ fn statements(out: &mut Out, rng: &mut Rng) {
             let mut mq = MutationQuery::execute(&mut p, Arc::new(mutation), &w.conn).unwrap();
             mq.write(&w.conn).unwrap();
         }
+        // the same model with the neutral default "x": what the implementation compiles then
+        let mn = SModel { fields: vec![
+            SField { name: "name", ty: "String", coq_ty: "TStr", nullable: false, default: None },
+            SField { name: "t", ty: "String", coq_ty: "TStr", nullable: false, default: Some("x".into()) },
+            SField { name: "n", ty: "Integer", coq_ty: "TInt", nullable: false, default: Some("3".into()) } ] };
+        let mut dmn = DataModel::new();
+        dmn.update(&mn.text()).unwrap();
         let queries = [
             SQuery { sel: vec![(0, None), (1, None)], filters: vec![(false, 1, 0, Opnd::Str("given".into()))], order: vec![], after: vec![] },
             SQuery { sel: vec![(0, None)], filters: vec![(false, 1, 1, Opnd::Var("v".into()))], order: vec![], after: vec![] },
@@ -398,6 +405,8 @@ fn statements(out: &mut Out, rng: &mut Rng) {
             };
             let mut obs = vec![ok];
             enc_str(&sql, &mut obs);
+            let neutral_sql = real_sql(&dmn, &text).unwrap_or_default();
+            enc_str(&neutral_sql, &mut obs);
             out.push(Case { kind: "default".into(), coq: format!("CDefault {} {}", m.coq(&w.dm), q.coq()), obs, meta: json!({"default": d, "query": text, "sql": sql, "note": note}) });
         }
     }
@@ -414,7 +423,7 @@ fn statements(out: &mut Out, rng: &mut Rng) {
         SQuery { sel: vec![(0, None), (1, None)], filters: vec![(false, 0, 0, Opnd::Var("dd".into())), (false, 1, 0, Opnd::Str("dd".into()))], order: vec![], after: vec![] },
         SQuery { sel: vec![(0, None)], filters: vec![(false, 0, 0, Opnd::Str("'; DROP TABLE _node; --".into()))], order: vec![], after: vec![] },
     ];
-    for _ in 0..scale(300, 4000) { directed.push(gen_squery(rng, &m, &[0, 1, 2])); }
+    for _ in 0..scale(220, 4000) { directed.push(gen_squery(rng, &m, &[0, 1, 2])); }
     for q in directed {
         let (t1, t2) = (q.text(&m), q.neutral().text(&m));
         let (s1, s2) = (real_sql(&dm, &t1), real_sql(&dm, &t2));
@@ -447,8 +456,8 @@ fn main() {
         // as a literal: the character itself where the grammar allows it raw
         if ch != '"' && ch != '\\' { str_case(&mut out, &w, How::Literal, &ch.to_string(), "ascii-literal"); }
     }
-    for _ in 0..scale(500, 6000) { let s = gen_string(&mut rng); str_case(&mut out, &w, How::Param, &s, "string-param"); }
-    for _ in 0..scale(350, 4000) { let only_q = rng.chance(1, 2); let ts = gen_tokens(&mut rng, only_q); str_case(&mut out, &w, How::Literal, &render(&ts), if only_q { "string-literal-quote-escapes" } else { "string-literal-any-escape" }); }
+    for _ in 0..scale(400, 6000) { let s = gen_string(&mut rng); str_case(&mut out, &w, How::Param, &s, "string-param"); }
+    for _ in 0..scale(300, 4000) { let only_q = rng.chance(1, 2); let ts = gen_tokens(&mut rng, only_q); str_case(&mut out, &w, How::Literal, &render(&ts), if only_q { "string-literal-quote-escapes" } else { "string-literal-any-escape" }); }
     // integers
     for z in [0i64, 1, -1, i64::MAX, i64::MIN, i64::MIN + 1, 9007199254740992, 9007199254740993, -9007199254740993, 4294967296, 1000000000000000000] {
         int_case(&mut out, &w, How::Param, z); int_case(&mut out, &w, How::Literal, z);
